@@ -319,8 +319,10 @@ def ddmin_case(lf, fn, max_calls):
     while changed and calls[0] < max_calls:
         changed = False
         case = best["case"]
-        paths = sorted((p for p in _paths(case) if p and p[0] not in ("clients", "config")),
+        paths = sorted((p for p in _paths(case) if (p or isinstance(case, list)) and (not p or p[0] not in ("clients", "config"))),
                        key=lambda p: -len(_get(case, p)))
+        if isinstance(case, list):
+            paths = [p for p in paths if not (p and p[0] == 0)]  # entry 0 of a trace is its configuration
         for path in paths:
             if calls[0] >= max_calls:
                 break
@@ -338,7 +340,8 @@ def ddmin_case(lf, fn, max_calls):
                 while i >= 0 and calls[0] < max_calls:
                     cand = copy.deepcopy(best["case"])
                     l2 = _get(cand, path)
-                    if len(l2) < i + chunk or len(l2) - chunk < (1 if path[-1] in ("markets", "strategies", "runners") else 0):
+                    keep = 1 if (not path or path[-1] in ("markets", "strategies", "runners")) else 0
+                    if len(l2) < i + chunk or len(l2) - chunk < keep or (not path and i < 1):
                         i -= chunk
                         continue
                     del l2[i:i + chunk]
@@ -353,7 +356,7 @@ def ddmin_case(lf, fn, max_calls):
     return best
 
 
-def run_machine(col, machine_cls, n, steps, seed, tier, sub, shrink=True):
+def run_machine(col, machine_cls, n, steps, seed, tier, sub, shrink=True, replay_fn=None):
     """machine_cls: RuleBasedStateMachine subclass with class attribute `col` assigned here;
     the machine calls self.fail(Violation) -> handled like run_given.  The machine must keep
     self.trace (list of JSON-able steps) and call col.record at teardown."""
@@ -365,8 +368,9 @@ def run_machine(col, machine_cls, n, steps, seed, tier, sub, shrink=True):
         cls = type(machine_cls.__name__, (machine_cls,), {"col": col, "sub": sub, "tier": tier,
                                                         "calls_after_failure": [0]})
         cls = hypothesis.seed(derive_seed(seed, sub, attempt))(cls)
+        hyp_shrink = shrink and tier != "quick"
         try:
-            run_state_machine_as_test(cls, settings=_hyp_settings(n, tier, shrink, steps))
+            run_state_machine_as_test(cls, settings=_hyp_settings(n, tier, hyp_shrink, steps))
             return
         except Violation as v:
             lf = col.last_failure or {
@@ -374,6 +378,8 @@ def run_machine(col, machine_cls, n, steps, seed, tier, sub, shrink=True):
                 "message": v.message,
                 "case": json.loads(canon(v.case)),
             }
+            if shrink and not hyp_shrink and replay_fn is not None:
+                lf = ddmin_case(lf, replay_fn, SHRINK_CALLS[tier])
             lf["sub"] = sub
             col.violations.append(lf)
             col.suppressed.add(lf["signature"])
